@@ -7,7 +7,7 @@ ID = "C03"
 LEVEL = "proof"
 FUNCTIONS = ["LimitOrderBook.acq_price", "_Allocation.__init__", "_Allocation.__sub__", "Weights._to_nr_contracts",
              "NrContracts._to_weights", "Rebalancing.make_trades", "Broker.transact", "Broker.holdings_weights",
-             "Broker.context", "Broker.rebalance"]
+             "Broker.context", "Broker.rebalance", "PortfolioSpace.make_rebalancing_request"]
 REPLAYERS = [("Rebalancing.make_trades::raises::ValueError::sound", replayers.make_trades_raises),
              ("Broker.transact::lemma::nlv_delta", replayers.transact_nlv_delta)]
 FOLLOW_ON = {"Broker.transact::ensures::nlv_delta_total": "Broker.transact::lemma::nlv_delta"}
